@@ -78,6 +78,8 @@ def sort_is_total(sortcall):
     clo = strip(sortcall["args"][0])
     if clo.get("k") != "Closure":
         return False
+    if name in ("sort_by", "sort_unstable_by") and len(clo["params"]) == 2 and extremum_is_total({"name": "max_by", "args": [clo]}):
+        return True          # a comparator that falls back on the unique key (then_with on the first components)
     pids = []
     for p in clo["params"]:
         b = list(pat_bindings(p))
@@ -124,11 +126,26 @@ def extremum_is_total(call, crate=None):
     if clo.get("k") != "Closure" or len(clo["params"]) != 2:
         return False
     pids = []
-    for p in clo["params"]:
+    firsts = {}
+    for i_, p in enumerate(clo["params"]):
+        q = p
+        while q is not None and q.get("k") == "Ref":
+            q = q.get("pat")
         b = list(pat_bindings(p))
-        if len(b) != 1:
+        if len(b) == 1 and q is not None and q.get("k") == "Bind":
+            pids.append(b[0]["local"])
+        elif q is not None and q.get("k") == "Tuple" and q.get("pats"):
+            # `|(word_a, (_, freq_a)), (word_b, (_, freq_b))|`: the first component (the map key) under its own name
+            q0 = q["pats"][0]
+            while q0 is not None and q0.get("k") == "Ref":
+                q0 = q0.get("pat")
+            if q0 is None or q0.get("k") != "Bind":
+                return False
+            pid = "tuple-param-%d" % i_
+            pids.append(pid)
+            firsts[q0["local"]] = pid
+        else:
             return False
-        pids.append(b[0]["local"])
     # a closure that only forwards its two entries to a function: read that function
     body0 = strip(clo["body"])
     while body0.get("k") == "Block" and not body0["stmts"] and body0.get("e"):
@@ -140,7 +157,6 @@ def extremum_is_total(call, crate=None):
         if g is not None and len(g["params"]) == 2:
             return extremum_is_total({"name": call["name"], "args": [{"k": "Closure", "params": g["params"], "body": g["body"]}]}, crate)
     # `let (class_a, weight_a) = a;` : the first component of an entry under its own name
-    firsts = {}
     for n in walk(clo["body"]):
         if n.get("k") == "LetStmt" and n.get("init") is not None and n["pat"].get("k") == "Tuple" and n["pat"]["pats"]:
             i0 = peel_refs(n["init"])
@@ -216,6 +232,8 @@ def classify(fn, src, pm):
                 if INT_RE.match(t):
                     return Consumer("ok", "integer %s" % name, par, "->".join(chain))
                 return Consumer("order", "floating-point/unknown-type `%s` (%s) accumulates in iteration order" % (name, t), par, "->".join(chain))
+            if name in ("fold", "reduce") and _fold_integer_commutative(fn, par):
+                return Consumer("ok", "integer `%s` with a commutative, associative step" % name, par, "->".join(chain))
             if name in ("fold", "reduce") and _fold_total_selection(fn, par):
                 return Consumer("ok", "`%s` keeps one of its two operands under %s" % (name, _fold_total_selection(fn, par)), par, "->".join(chain))
             if name in ("fold", "reduce", "try_fold", "scan"):
@@ -313,6 +331,8 @@ def follow_collection(fn, node, pm, chain):
                 nm = _seeds_total_incumbent(fn, par, pm) or _seeds_total_fold(fn, par, pm)
                 if nm:
                     return Consumer("ok", "the first element only seeds an incumbent that is replaced under the total predicate `%s`" % nm, par, chain)
+            if par["name"] in ("fold", "reduce") and _fold_integer_commutative(fn, par):
+                return Consumer("ok", "integer `%s` with a commutative, associative step" % par["name"], par, chain)
             if par["name"] in ("fold", "reduce") and _fold_total_selection(fn, par):
                 return Consumer("ok", "`%s` keeps one of its two operands under %s" % (par["name"], _fold_total_selection(fn, par)), par, chain)
             return Consumer("order", "sequence in hash order is consumed by `%s`" % par["name"], par, chain)
@@ -328,6 +348,44 @@ def follow_collection(fn, node, pm, chain):
         if k in ("Tup", "Struct", "Array"):
             return Consumer("derived", "sequence in iteration order is stored in the result", par, chain)
         return Consumer("unclassified", "sequence flows into `%s`" % k, par, chain)
+
+
+def _fold_integer_commutative(fn, call):
+    """`fold(0usize, |acc, x| acc + f(x))` (also `*`, `|`, `&`, `^`, max, min) over integers / booleans: exact arithmetic
+    with a commutative, associative step gives the same result in every iteration order"""
+    c = fn["crate"]
+    if call.get("name") not in ("fold", "reduce") or not call.get("args"):
+        return False
+    t = c.ty(call.get("t")) or ""
+    if call["name"] == "reduce":
+        t = t.replace("std::option::Option<", "").replace("core::option::Option<", "").rstrip(">")
+    if not (INT_RE.match(t) or t == "bool"):
+        return False
+    clo = strip(call["args"][-1])
+    if clo.get("k") != "Closure" or len(clo["params"]) != 2 or clo["params"][0].get("k") != "Bind":
+        return False
+    acc = clo["params"][0]["local"]
+    body = strip(clo["body"])
+    while body.get("k") == "Block" and not body["stmts"] and body.get("e") is not None:
+        body = strip(body["e"])
+
+    def mentions(e):
+        return any(z.get("k") == "Path" and z.get("local") == acc for z in walk(e))
+    if body.get("k") == "Binary" and body["op"] in ("+", "*", "|", "&", "^", "||", "&&"):
+        l, r_ = peel_refs(body["l"]), peel_refs(body["r"])
+        if l.get("local") == acc and l.get("k") == "Path" and not mentions(body["r"]):
+            return True
+        if r_.get("local") == acc and r_.get("k") == "Path" and not mentions(body["l"]):
+            return True
+    if body.get("k") == "MethodCall" and body["name"] in ("max", "min") and len(body["args"]) == 1:
+        a, b = peel_refs(body["recv"]), peel_refs(body["args"][0])
+        if (a.get("local") == acc and not mentions(body["args"][0])) or (b.get("local") == acc and not mentions(body["recv"])):
+            return True
+    if body.get("k") == "Call" and len(body.get("args") or []) == 2 and strip(body["f"]).get("k") == "Path" and (c.dfn(strip(body["f"]).get("def")) or {}).get("name") in ("max", "min"):
+        a, b = peel_refs(body["args"][0]), peel_refs(body["args"][1])
+        if (a.get("local") == acc and not mentions(body["args"][1])) or (b.get("local") == acc and not mentions(body["args"][0])):
+            return True
+    return False
 
 
 def _fold_total_selection(fn, call):
